@@ -63,6 +63,7 @@ def known_match(known, prop, signature):
 
 # reach probes that must be non-zero in a batch (otherwise the batch is not a pass)
 REQUIRED_PROBES = {
+    "C02": ["two_different_errors", "nary_leading_absent", "equivalence_checked"],
     "C08": ["both_sides_present", "one_sided", "axle_partial_presence", "diff_equal_all_present", "diff_waits_for_data",
             "teeth_ratio_observed"],
     "C09": ["reconnect_same_pair", "connect_steals_both", "connect_steals_one", "disconnect_unlinked"],
@@ -76,6 +77,15 @@ REQUIRED_PROBES = {
 }
 
 RULES = {
+    "comb": ("each case is one seeded plan: a DAG (depth <= 3) of real rrtk combinators over scripted f32 / bool / Quantity "
+             "leaf sensors and clocks, and an op list that re-scripts leaves (present with older/equal/newer stamps, absent, "
+             "E1, E2) and clocks (before/at/after expiry, error); every node is read after every op and judged against a "
+             "table-driven model fed with its own inputs' outcomes. Non-trivial: some node input was absent or an error; "
+             "distinct = hash of the sequence of (node, input-category tuple, timestamp-order class), counted with a set. "
+             "cells_reached counts distinct (kind, arity, category tuple, order class, expiry class) cells."),
+    "mixed": ("C03 rides on three worlds: combinator DAGs (2/4 of the runs), device graphs (1/4) and the Datum operator "
+              "layer (1/4; operator_layer_evaluations reported separately, see DESIGN 5 C03). Non-trivial and distinct as "
+              "in those worlds."),
     "device": ("each case is one seeded plan: an arena of real devices / wrappers / free terminals (header) and an op list "
                "(connect, disconnect, set state / command with unique skewed timestamps, update one device, inner-object "
                "faults) executed on the real rrtk device graph; every terminal is read after every op. A run is non-trivial "
@@ -89,6 +99,16 @@ RULES = {
 }
 
 COMPONENTS = {
+    "comb": {
+        "real": ["SumStream<1..8>", "ProductStream<1..8>", "Latest<1..8>", "Sum2", "Product2", "DifferenceStream",
+                 "QuotientStream", "ExponentStream", "IfStream", "IfElseStream", "Expirer", "NoneToError", "NoneToValue",
+                 "AndStream", "OrStream", "NotStream", "Reference (RcRefCell)"],
+        "stub": ["leaf sensors", "clocks", "table-driven outcome model"],
+    },
+    "mixed": {
+        "real": ["all combinators", "Terminal/connect/devices", "Datum operator impls", "replace_if_* helpers", "latest()"],
+        "stub": ["leaf sensors", "clocks", "operator nodes (harness-defined user streams)"],
+    },
     "device": {
         "real": ["Terminal", "connect", "Terminal::disconnect", "Invert", "GearTrain (ratio, Quantity ratio, tooth list)",
                  "Axle<0..8>", "Differential (4 trust modes)", "ActuatorWrapper", "GetterStateDeviceWrapper", "PIDWrapper",
@@ -126,6 +146,7 @@ def write_evidence(prop, tier, seed, world, res, violations, known_hits, wall, e
         "faults_fired": res["faults_fired"],
         "reach_probes": res["reach_probes"],
         "value_comparisons": res["counts"].get("value_compared", 0),
+        "operator_layer_evaluations": res["counts"].get("operator_layer_evaluations", 0),
         "ill_conditioned_skipped": res["counts"].get("ill_conditioned_skipped", 0),
         "cells_reached": res["cells_reached"],
         "trace_digest": res["trace_xor"] + res["trace_sum"],
@@ -213,6 +234,7 @@ def sim_batch(prop, tier, seed, world):
 SIM_PROPS = {
     "C04": "node", "C05": "node", "C10": "node", "C11": "node", "C12": "node",
     "C08": "device", "C09": "device", "C13": "device", "C20": "device",
+    "C02": "comb", "C03": "mixed",
 }
 
 
